@@ -43,18 +43,29 @@ func GenConfig(r *vgen.Rand) *Config {
 		PortLo:    1024, PortHi: 65535,
 		SiblingDown: map[int]bool{},
 	}
+	// Interface ids cover the whole uint16 range: small ids, large ids, 0xFFFF, and ids that differ
+	// from an already configured one only in the high byte (so that a check or a MAC that ignores
+	// one of the two bytes confuses two configured interfaces).
 	used := map[uint16]bool{0: true}
+	var ids []uint16
 	newID := func() uint16 {
-		for {
+		for try := 0; ; try++ {
 			var id uint16
-			switch r.Intn(4) {
-			case 0:
-				id = uint16(r.Range(1, 65535))
+			switch k := r.Intn(8); {
+			case k <= 1:
+				id = uint16(r.Range(1, 255))
+			case k == 2:
+				id = uint16(r.Range(256, 65535))
+			case k == 3 && !used[0xFFFF]:
+				id = 0xFFFF
+			case len(ids) > 0:
+				id = ids[r.Intn(len(ids))] ^ uint16(r.Range(1, 255))<<8 // same low byte
 			default:
 				id = uint16(r.Range(1, 400))
 			}
 			if !used[id] {
 				used[id] = true
+				ids = append(ids, id)
 				return id
 			}
 		}
@@ -64,7 +75,19 @@ func GenConfig(r *vgen.Rand) *Config {
 	}
 	for lt := LTCore; lt <= LTPeer; lt++ {
 		add(lt, 0)
-		add(lt, 0)
+		// the second own interface of the type often shares the low byte with the first
+		if first := c.Ifaces[len(c.Ifaces)-1].ID; r.Bool() {
+			twin := first ^ uint16(r.Range(1, 255))<<8
+			if !used[twin] {
+				used[twin] = true
+				ids = append(ids, twin)
+				c.Ifaces = append(c.Ifaces, Iface{ID: twin, LT: lt, Nbr: randIA(r, c.IA), Up: true})
+			} else {
+				add(lt, 0)
+			}
+		} else {
+			add(lt, 0)
+		}
 		add(lt, 1)
 		if lt == LTCore || lt == LTChild || r.Bool() {
 			add(lt, 2)
@@ -181,7 +204,15 @@ type segw struct {
 
 func randKey(r *vgen.Rand) []byte { return r.Bytes(16) }
 
-func randIf(r *vgen.Rand) uint16 { return uint16(r.Range(1, 2000)) }
+func randIf(r *vgen.Rand) uint16 {
+	switch r.Intn(4) {
+	case 0:
+		return uint16(r.Range(1, 255))
+	case 1:
+		return uint16(r.Range(256, 65535))
+	}
+	return uint16(r.Range(1, 2000))
+}
 
 func randTS(r *vgen.Rand, nowSec int64) uint32 {
 	return uint32(nowSec - int64(r.Range(MarginSec, 4000)))
@@ -659,14 +690,32 @@ func Mutate(r *vgen.Rand, sc *Scenario, c *Config, nowSec int64, what string) st
 	}
 	inf := &d.Infos[ci]
 	hop := &d.Hops[ch]
+	// another interface id: preferably one that differs from the current value only in the high
+	// byte (configured if there is one), else any configured id, 0, 0xFFFF or a random one
 	otherIf := func(not uint16) uint16 {
 		for {
 			var id uint16
-			switch r.Intn(4) {
+			switch r.Intn(8) {
 			case 0:
 				id = randIf(r)
 			case 1:
 				id = 0
+			case 2:
+				id = 0xFFFF
+			case 3, 4:
+				var cands []uint16
+				for _, f := range c.Ifaces {
+					if f.ID != not && f.ID&0xff == not&0xff {
+						cands = append(cands, f.ID)
+					}
+				}
+				if len(cands) > 0 {
+					id = cands[r.Intn(len(cands))]
+				} else {
+					id = not ^ uint16(r.Range(1, 255))<<8
+				}
+			case 5:
+				id = not ^ uint16(r.Range(1, 255))<<8 // same low byte, other high byte
 			default:
 				id = c.Ifaces[r.Intn(len(c.Ifaces))].ID
 			}
